@@ -15,13 +15,13 @@ import (
 func init() {
 	register(&PropDef{
 		ID: "C09", Level: "fault_enumeration", Quick: 2500, Thorough: 250000, QuickCap: 100,
-		Rule: "two sub-workloads. restart: a sequential program (uploads by every protocol, patches, deletes, compose, copy, bucket creation) on the file store with a new emulator instance on the same directory after EVERY request (a kill between requests; pending resumable uploads die), comparing every bucket, object, content, metadata, generation and metageneration through HTTP with what was acknowledged; content files without a metadata sidecar are planted into the directory and must be served. differential: one tape of pre-drawn operation records executed against a memory-store world and a file-store world (names representable as files); normalised response traces (status, metadata with generations replaced by their rank of first appearance, body hashes, listings) must be identical; distinct = hash of (sub-workload, shapes); non-trivial = at least 3 requests",
+		Rule: "two sub-workloads. restart: a sequential program (uploads by every protocol, patches, deletes, compose, copy, bucket creation) on the file store with a new emulator instance on the same directory after EVERY request (a kill between requests; pending resumable uploads die), comparing every bucket, object, content, metadata, generation and metageneration through HTTP with what was acknowledged; content files without a metadata sidecar are planted into the directory and must be served, then patched, copied and deleted like any object, the outcome surviving another restart. differential: one tape of pre-drawn operation records executed against a memory-store world and a file-store world (names representable as files); normalised response traces (status, metadata with generations replaced by their rank of first appearance, body hashes, listings) must be identical; distinct = hash of (sub-workload, shapes); non-trivial = at least 3 requests",
 		Real: []string{"gcsemu filestore (Add: content, forced mtime, sidecar; UpdateMeta; Delete; ReadMeta; Walk), memstore, all handlers"},
 		Stub: []string{"process kill between requests = the GcsEmu value is dropped and rebuilt with NewFileStore(sameDir)", "wall clock (simulator-owned)"},
 		Assume: []string{"a kill between requests (the property's wording), not inside one", "timestamps and concrete generation numbers are not compared across stores"},
 		Run: runC09,
 	})
-	expectedProbes["C09"] = []string{"gcs.restart", "c09.planted_file_served", "c09.differential_equal", "c09.differential_listing"}
+	expectedProbes["C09"] = []string{"gcs.restart", "c09.planted_file_served", "c09.planted_file_patched_copied_deleted", "c09.differential_equal", "c09.differential_listing"}
 }
 
 func c09Gen(r *Run, g *gGen) func(d *draws, m *gModel, i int) gOp {
@@ -123,6 +123,40 @@ func c09Restart(r *Run, cfg *Stream) {
 		return
 	}
 	r.Probe("c09.planted_file_served")
+	// the planted objects are ordinary objects from now on: patch, copy, delete - and the result
+	// persists across another restart
+	before := parseMeta(w.GetMeta("bkt", "legacy.txt").JSON())
+	pr := w.Patch("bkt", "legacy.txt", map[string]interface{}{"metadata": map[string]string{"k": "planted"}}, gConds{})
+	pm := parseMeta(pr.JSON())
+	if pr.Status != 200 || pm == nil || pm.Metadata["k"] != "planted" || pm.Metagen != before.Metagen+1 || pm.Gen != before.Gen {
+		r.Fail("sidecarless-not-served", "", "PATCH of the sidecar-less object legacy.txt (generation %d, metageneration %d before): HTTP %d %s", before.Gen, before.Metagen, pr.Status, shortVal(string(pr.Body)))
+		return
+	}
+	cp := w.Do(HReq{Method: "POST", Path: objPath("bkt", "old/dir/file.bin") + "/rewriteTo/b/bkt/o/" + escName("copy-of-planted.bin")})
+	if cp.Status != 200 {
+		r.Fail("sidecarless-not-served", "", "copy of the sidecar-less object old/dir/file.bin: HTTP %d %s", cp.Status, shortVal(string(cp.Body)))
+		return
+	}
+	if dl := w.Delete("bkt", "old/dir/file.bin", gConds{}); !ok2xx(dl.Status) {
+		r.Fail("sidecarless-not-served", "", "delete of the sidecar-less object old/dir/file.bin: HTTP %d %s", dl.Status, shortVal(string(dl.Body)))
+		return
+	}
+	w = w.Restart()
+	res.World = w
+	after := parseMeta(w.GetMeta("bkt", "legacy.txt").JSON())
+	if after == nil || after.Metadata["k"] != "planted" || after.Metagen != pm.Metagen || after.Gen != pm.Gen {
+		r.Fail("restart-lost-state", "", "after a restart the patched legacy.txt reads %v, acknowledged was generation %d metageneration %d metadata k=planted", after, pm.Gen, pm.Metagen)
+		return
+	}
+	if m1 := w.GetMedia("bkt", "copy-of-planted.bin", 0); m1.Status != 200 || string(m1.Body) != planted["old/dir/file.bin"] {
+		r.Fail("restart-lost-state", "", "copy of a sidecar-less object after a restart: HTTP %d %s", m1.Status, shortVal(string(m1.Body)))
+		return
+	}
+	if g2 := w.GetMeta("bkt", "old/dir/file.bin"); g2.Status != 404 {
+		r.Fail("restart-lost-state", "", "deleted sidecar-less object is back after a restart: HTTP %d", g2.Status)
+		return
+	}
+	r.Probe("c09.planted_file_patched_copied_deleted")
 }
 
 // normResp renders a response with generations replaced by their rank of first appearance.
